@@ -27,6 +27,7 @@
           | 10 maddr res victims:[maddr]           dial_address; res 0 = connection established, k+1 = DialFailure of kind k
           | 11 maddr                               PublicAddresses::add_address
           | 12 maddr                               PublicAddresses::remove_address
+          | 15 maddr victims:[maddr]               dial_address when the transport's dial() returns an error
           | 13 peer [maddr] order:[maddr] victims:[maddr]  TransportService::add_known_address: the service
                                                    appends /p2p/<peer> to every address that does not end in
                                                    a peer id and hands the set to the manager's handle (op 0
@@ -197,6 +198,7 @@ Definition p_op : parser op :=
   | 13 => let* p := p_peer in let* l := plistb 1000 p_maddr in let* o := plistb 1000 p_maddr in
           let* vs := plistb 1000 p_maddr in
           pret (OAdd p (ts_prepare p l) o vs)
+  | 15 => let* a := p_maddr in let* vs := plistb 3 p_maddr in pret (ODialAddrRefused a vs)
   | _ => pfail
   end.
 
@@ -249,6 +251,7 @@ Definition op_peer (o : op) : option N :=
   | ODial p _ _ _ _ _ => Some p
   | OInsert p _ _ _ => Some p
   | ODialAddr a _ _ => match last a (Other 0) with P2p p => Some p | _ => None end
+  | ODialAddrRefused a _ => match last a (Other 0) with P2p p => Some p | _ => None end
   | _ => None
   end.
 
@@ -692,6 +695,24 @@ Definition step_ok (c : cfg) (k : scorecfg) (st : ostate) (o : op) (ob : obs) : 
                | Some _ => true | None => false end &&
                (mem a s || negb (mem a s') || dial_ok_weak c (o_lst st) q a) &&
                rescore_ok k a okz oknew s s'
+            then upd (put q s' b) else None
+          else if same_store s s' && store_ok k s' then upd (put q s' b) else None
+      | P2p _, None => None
+      | _, None => if code =? 0 then None else Some st
+      | _, Some _ => None
+      end
+  | ODialAddrRefused a _, BDialAddr code so =>
+      match last a (Other 0), so with
+      | P2p q, Some s' =>
+          let s := get_or_empty q b in
+          if code =? 0 then
+            (* the dial was not started: a stored address is untouched; what is newly remembered
+               passed dial_address's check and is untested *)
+            if match free_capacity c (mkState b (o_lst st) (o_held st) (o_pubs st)) 0 with
+               | Some _ => true | None => false end &&
+               (if mem a s then same_store s s' && store_ok k s'
+                else (negb (mem a s') || dial_ok_weak c (o_lst st) q a) &&
+                     rescore_ok k a (fun _ => false) (fun z => Z.eqb z (new_score_of k a 0)) s s')
             then upd (put q s' b) else None
           else if same_store s s' && store_ok k s' then upd (put q s' b) else None
       | P2p _, None => None
